@@ -18,6 +18,7 @@ import Driver.C11
 import Driver.C12
 import Driver.C18
 import Driver.C15
+import Driver.C20
 open Ws.Driver
 
 def dispatch (op : String) (args : List String) (obs : String) : String × String :=
@@ -56,6 +57,7 @@ def dispatch (op : String) (args : List String) (obs : String) : String × Strin
   | "badc" => c12badc args obs
   | "rst" => c18rst args obs
   | "fz" => c15fz args obs
+  | "dialc" => c20dialc args obs
   | "neg" => c14neg args obs
   | "popt" => c14popt args obs
   | "msb" => c13msb args obs
